@@ -21,6 +21,8 @@ def library_dirs(ctx):
                 with open(os.path.join(d, lib + ".sld"), "w") as f:
                     f.write("(define-library (%s) (import (scheme base)) (export %s) (begin (define-syntax m (syntax-rules () ((m a) (list 'lib-%s)))) (define %s (car (cons %d (m 0))))))\n"
                             % (lib, name, who, name, val))
+            with open(os.path.join(d, "prog.scm"), "w") as f:
+                f.write("(import (scheme base))\n(define program-of-%s 1)\n" % who)
             LIBDIRS[who] = d
     return LIBDIRS
 
@@ -29,7 +31,12 @@ def interleaved_job(jid, pa, pb, sched, fresh=True):
     """A = interpreter 0, B = interpreter 1; a new instance is created (and used once) at every point"""
     steps = [{"op": "new", "i": 0}, {"op": "new", "i": 1}]
     if LIBDIRS:
-        steps = [{"op": "new", "i": 0}, {"op": "progdir", "i": 0, "path": LIBDIRS["a"]}, {"op": "new", "i": 1}, {"op": "progdir", "i": 1, "path": LIBDIRS["b"]}]
+        # an instance runs a (trivial) program FILE from A's directory before anything else: where one instance's program lives
+        # says nothing about where an instance without a program directory finds libraries (probed by the fresh instances)
+        # (a third instance: running a file evaluates forms, after which Ruschm accepts no import declaration)
+        steps = [{"op": "new", "i": 90}, {"op": "evalfile", "i": 90, "path": os.path.join(LIBDIRS["a"], "prog.scm")},
+                 {"op": "new", "i": 0}, {"op": "progdir", "i": 0, "path": LIBDIRS["a"]},
+                 {"op": "new", "i": 1}, {"op": "progdir", "i": 1, "path": LIBDIRS["b"]}]
     ia = ib = 0
     k = 2
     pos = {"a": [], "b": [], "fresh": []}
@@ -40,6 +47,8 @@ def interleaved_job(jid, pa, pb, sched, fresh=True):
             pos["b"].append(len(steps)); steps.append({"op": "eval", "i": 1, "text": S.render(pb[ib])}); ib += 1
         if fresh:
             steps.append({"op": "new", "i": k})
+            if LIBDIRS:
+                pos.setdefault("freshimport", []).append(len(steps)); steps.append({"op": "eval", "i": k, "text": "(import (onlya))"})
             pos["fresh"].append(len(steps)); steps.append({"op": "eval", "i": k, "text": "(cond ((car '(#f)) 1) (else (tick! 3)))"})
             steps.append({"op": "drop", "i": k})
             k += 1
@@ -100,6 +109,12 @@ def run(ctx):
                         break
                 if why:
                     break
+            if not why:
+                for at in pos.get("freshimport", []):
+                    o = rs[at] if at < len(rs) else {"k": "missing"}
+                    if not (o.get("k") == "error" and o.get("kind") == "NotFound"):
+                        why = "a new instance without a program directory finds (or fails differently on) a library that exists only next to another instance's program: (import (onlya)) -> %s" % json.dumps(S.to_spec_outcome(o))[:200]
+                        break
             if not why:
                 for at in pos["fresh"]:
                     o = rs[at] if at < len(rs) else {"k": "missing"}
